@@ -34,8 +34,8 @@ REGISTRY["C03"] = l2("C03", "dtd", ["harness/l2/dtd_driver.c"], ["harness/l2/dtd
     "1-4 ranks x 1-8 worker threads, 2-6 tiles of 1-4 elements, 3-28 insertions of 1-4 parameters (IN/OUT/INOUT, same tile repeated allowed), 11 schedulers, window in {default,1,2,8}, threshold in {default,1,2,4}, tasks inserting tasks (1 rank), network latency/jitter/heavy-tail/eager-limit/partial+lagging Testsome/late send completion",
     knobs=["prop=3"])
 REGISTRY["C04"] = l2("C04", "dtd", ["harness/l2/dtd_driver.c"], ["harness/l2/dtd.c"], 4, DTD_REAL,
-    "as C03 (interval oracle per rank: conflicting accesses never in flight together, a writer never begins before an earlier-inserted reader/writer of the tile ended, value stable under a running reader)",
-    knobs=["prop=4"])
+    "single rank (with several ranks a reader of a received copy and a writer of the owner copy touch different memory); otherwise as C03 (interval oracle: conflicting accesses never in flight together, a writer never begins before an earlier-inserted reader/writer of the tile ended, value stable under a running reader)",
+    knobs=["prop=4", "nranks=1"])
 REGISTRY["C17"] = l2("C17", "dtd", ["harness/l2/dtd_driver.c"], ["harness/l2/dtd.c"], 4, DTD_REAL,
     "as C03 with partial flushes (random subset of tiles) or flush_all; owner copy after flush+wait compared with the last writer in insertion order",
     knobs=["prop=17"])
